@@ -379,6 +379,7 @@ class Ctx:
     def _write_replay(self, name, obj):
         os.makedirs(REPLAY_DIR, exist_ok=True)
         path = os.path.join(REPLAY_DIR, name)
+        obj = dict(obj, seed=self.seed, tier=self.tier)
         with open(path, "w") as f:
             json.dump(obj, f, indent=1, default=str)
         return os.path.relpath(path, VERIF)
@@ -430,6 +431,30 @@ def parse_rat(s):
     return Fraction(s)
 
 
+def generic_replay(mod, prop, path):
+    """replay for checks without a case-level replay: the run is a deterministic function of (VERIF_SEED, tier), both recorded
+    in the replay file: re-run the check's exploration against /repo and report whether the recorded failure class reappears."""
+    with open(path) as f:
+        rec = json.load(f)
+    m = re.match(r"C\d\d-(\d+)-", os.path.basename(path))
+    seed = rec.get("seed", int(m.group(1)) if m else 0)
+    tier = rec.get("tier", "quick")
+    key = rec.get("key")
+    print(f"replaying {prop} with VERIF_SEED={seed} tier={tier}, looking for failure class [{key}]")
+    ctx = Ctx(prop, tier, seed)
+    mod.run(ctx)
+    if key is None:          # a tie break without failing input: does the tie still break?
+        for t in ctx.tie_breaks:
+            print("tie break:", t)
+        return 1 if ctx.tie_breaks else 0
+    hits = [f for f in ctx.failures if f["key"] == key]
+    for f in hits[:3]:
+        print("reproduced:", f["what"][:400])
+    if not hits:
+        print("not reproduced" + (f" (other failure classes: {sorted(set(f['key'] for f in ctx.failures))})" if ctx.failures else ""))
+    return 1 if hits else 0
+
+
 def main(argv):
     import argparse
     import importlib
@@ -453,7 +478,10 @@ def main(argv):
     warnings.filterwarnings("ignore")
     try:
         if a.replay:
-            return mod.replay(ctx, a.replay)
+            rc = mod.replay(ctx, a.replay)
+            if rc == 2:
+                rc = generic_replay(mod, prop, a.replay)
+            return rc
         mod.run(ctx)
         return ctx.finish()
     except subprocess.TimeoutExpired as e:
